@@ -25,7 +25,7 @@ for pid in sorted(registry.PROPERTIES):
         "level_note": "Trusted: kani-compiler 0.68 / CBMC 6.11 / CaDiCaL, Verus 0.2026.09.13 / Z3, the extractor in /verif/vlib. "
                       "Assumed (unchecked): " + "; ".join(p["assumptions"][2:] + ["NOT DECIDED: " + "; ".join(p["not_decided"])]),
         "technique": "contract-based deductive verification: " + ", ".join(
-            f"{u.uid} ({'Kani/CBMC function contract harness' if u.engine == 'kani' else 'Verus requires/ensures on extracted code' if u.engine == 'verus' else 'frame audit'})"
+            f"{u.uid} ({'Kani/CBMC contract harness on the real function or a verbatim slice of it' if u.engine == 'kani' else 'Verus requires/ensures on code extracted verbatim' if u.engine == 'verus' else 'frame audit (token scan)'}{', thorough tier only' if u.tier == 'thorough' else ''}{', bounded: ' + u.bound if getattr(u, 'bound', None) else ''})"
             for u in units),
     })
 
